@@ -44,7 +44,7 @@ def writes(fn):
                 scls = short(cal.get('cls', ''))
                 for p, a in zip(cal['params'], args):
                     if p['pass'] == 'lref':
-                        how = 'guard' if scls == 'CounterGuard' else 'arg:' + k
+                        how = 'guard' if (scls == 'CounterGuard' or (cal.get('ctor') and scls in fn.tu.counter_guard_classes())) else 'arg:' + k
                         out.append({'node': n, 'path': path(fn, a), 'how': how, 'argnode': a})
     for w in out:
         w['pos'] = fn.pos(w['node'])
